@@ -47,6 +47,57 @@ def evaluate(m, wngrid=None):
     return np.array(g, float), np.array(s, float), np.array(t, float)
 
 
+def spec_with_net(spec, net):
+    """Move as many net settings as fixtures.build_model can express into the model specification (constructor
+    arguments); what remains is applied through the setters afterwards.  Returns (spec, rest)."""
+    import copy
+    spec = copy.deepcopy(spec)
+    rest = dict(net)
+
+    def take(k_):
+        return rest.pop(k_)
+    if 'T' in rest and list(spec.get('T', ['iso']))[0] == 'iso':
+        spec['T'] = ['iso', float(take('T'))]
+    pr, pm = spec.get('planet', (1.0, 1.0))
+    if 'planet_radius' in rest:
+        pr = float(take('planet_radius'))
+    if 'planet_mass' in rest:
+        pm = float(take('planet_mass'))
+    spec['planet'] = [pr, pm]
+    pmax, pmin = spec.get('prange', (1e6, 1e-1))
+    if 'atm_max_pressure' in rest:
+        pmax = float(take('atm_max_pressure'))
+    if 'atm_min_pressure' in rest:
+        pmin = float(take('atm_min_pressure'))
+    spec['prange'] = [pmax, pmin]
+    if 'star_temperature' in rest:
+        sr, st = spec.get('star', (1.0, 5000.0))
+        spec['star'] = [sr, float(take('star_temperature'))]
+    gases = []
+    for mol, prof in spec.get('gases', []):
+        if mol in rest and prof[0] == 'const':
+            prof = ['const', float(take(mol))]
+        gases.append([mol, prof])
+    spec['gases'] = gases
+    fill, ratio = spec.get('fill', (['H2', 'He'], 0.17))
+    if len(fill) == 2 and '%s_%s' % (fill[1], fill[0]) in rest:
+        ratio = float(take('%s_%s' % (fill[1], fill[0])))
+    spec['fill'] = [list(fill), ratio]
+    contribs = []
+    for c in spec.get('contribs', ['abs']):
+        if isinstance(c, (list, tuple)) and c[0] == 'clouds' and 'clouds_pressure' in rest:
+            c = ['clouds', float(take('clouds_pressure'))]
+        elif isinstance(c, (list, tuple)) and c[0] in ('flat', 'lee'):
+            kw = dict(c[1])
+            for k_ in list(rest):
+                if k_.startswith('flat_' if c[0] == 'flat' else 'lee_mie_'):
+                    kw[k_] = take(k_)
+            c = [c[0], kw]
+        contribs.append(c)
+    spec['contribs'] = contribs
+    return spec, rest
+
+
 def evaluate_entry(m, entry, wngrid=None):
     """The model evaluated through one of its per-source entry points: every flux (and transmittance / optical depth)
     array it returns, in a fixed order."""
@@ -64,7 +115,7 @@ def evaluate_entry(m, entry, wngrid=None):
     return [np.array(g, float)] + out
 
 
-def run_history(r, hist, build, tag, extra_eval=None, env_apply=None, as_numpy=False, entry='model'):
+def run_history(r, hist, build, tag, extra_eval=None, env_apply=None, as_numpy=False, entry='model', build_with=None):
     """build() -> fresh model with caches installed (must call fx.reset_caches itself when the
     opacity tables are process-wide).  The live model and every fresh model share the installed
     opacity tables (they are inputs, not state under test)."""
@@ -154,11 +205,16 @@ def run_history(r, hist, build, tag, extra_eval=None, env_apply=None, as_numpy=F
                     'history-exception/%s/%s' % (type(e).__name__, sig), exc=repr(e), fresh_exc=repr(fexc),
                     hist=hist[:k + 1])
             return
-        fresh = build()
+        if build_with is not None:
+            # the fresh model receives the net settings as constructor arguments where the check can express them so
+            # (a defect that sits in the setters, or in what build() does to constructor values, is then not mirrored)
+            fresh, rest = build_with(dict(net))
+        else:
+            fresh, rest = build(), net
         if env[0] is not None:
             env_apply(env[0])
-        for n_ in sorted(net):
-            apply_op(fresh, [n_, net[n_]])
+        for n_ in sorted(rest):
+            apply_op(fresh, [n_, rest[n_]])
         want = ev(fresh)
         r.eq(got[0], want[0], 'history-grid', 'history-grid/' + sig, rtol=0.0, atol=0.0, hist=hist[:k + 1])
         if got[0].shape != want[0].shape:
